@@ -27,7 +27,11 @@ def moment_class(kind):
             "EO": red.EqualizedOdds, "ERP": red.ErrorRateParity}[kind]
 
 
+SLACKS = [0.05, 0.0, 0.2, 0.01]
+
+
 def make_moment(kind, ratio, eps=EPS):
+    """difference bound eps for r = 1, otherwise ratio bound r with slack eps (eps may be 0.0)"""
     cls = moment_class(kind)
     r = Fraction(ratio[0], ratio[1])
     if r == 1:
